@@ -200,8 +200,11 @@ def c02(run, op, ctx, after):
             r = run.world.req("REPORT", path, [dav.XML_CT, ("Depth", "1")], dav.multiget_body(which, [run.world.target(path + n) for n in names]))
             compare_view(run, "multiget", path, o, r, base, data_tag=dav.P_CALDATA if which == "calendar" else dav.P_ADDRDATA, only_ext=want_ext)
         if c.kind == "calendar":
-            r = run.world.req("REPORT", path, [dav.XML_CT, ("Depth", "1")], dav.calquery_body(dav.cal_filter({"comp": None}), with_data=False))
-            compare_view(run, "calendar-query", path, o, r, base, partial=True)
+            # the same query at every audit (so that it is answered from the index sooner or later),
+            # with the data: etag and bytes of every answer are those of GET
+            flt = {"comp": "VEVENT"} if run.cfg.get("seed", 0) % 2 else {"comp": None}
+            r = run.world.req("REPORT", path, [dav.XML_CT, ("Depth", "1")], dav.calquery_body(dav.cal_filter(flt), with_data=True))
+            compare_view(run, "calendar-query", path, o, r, base, data_tag=dav.P_CALDATA, partial=True)
         r = run.world.req("REPORT", path, [dav.XML_CT], dav.sync_body(""))
         compare_view(run, "sync-collection", path, o, r, base)
         # HEAD + PROPFIND Depth 0 of one member
